@@ -211,7 +211,8 @@ def _decode(interp, shape, get, path=(), at=None, owner=None):
 
 
 class MList(SList):
-    __slots__ = ('shape', 'arrs', 'base', 'version', 'is_deque')
+    __slots__ = ('shape', 'arrs', 'base', 'version', 'is_deque',
+                 'base_empty', 'base_len', 'tail', 'base_measures', 'mversion')
 
     def __init__(self, interp, uid, shape, length=None, fresh=True):
         SList.__init__(self, length if length is not None else z3.IntVal(0), None, uid)
@@ -222,6 +223,13 @@ class MList(SList):
         self.is_deque = False
         self.immutable = False
         self.elem = self._elem
+        # measures (left folds, see pyvc.api.Measure): the list is `base list` followed by the items of `tail`;
+        # the base list is the empty list (created empty) or an arbitrary list whose measure values are unknown
+        self.base_empty = length is None
+        self.base_len = self.length
+        self.tail = []
+        self.base_measures = {}
+        self.mversion = 0
         if shape is not None:
             self._fresh_arrays(interp, uid)
 
@@ -252,6 +260,14 @@ class MList(SList):
                 raise Unsupported('symbolic list holds elements of different shapes: %r / %r' % (self.shape, sh))
 
     # ---- mutation -------------------------------------------------------------
+    def new_base(self):
+        """the contents changed in a way measures do not follow: their values become unknown"""
+        self.base_empty = False
+        self.base_len = self.length
+        self.tail = []
+        self.base_measures = {}
+        self.mversion += 1
+
     def havoc(self, interp, tag):
         self.cache = {}
         self.aux = {}          # measures (pyvc.texts) describe the old contents
@@ -260,6 +276,7 @@ class MList(SList):
         interp.st.assume(n >= 0)
         self.length = n
         self.base = z3.IntVal(0)
+        self.new_base()
         if self.shape is not None:
             self.arrs = {}
             self._fresh_arrays(interp, '%s@%s' % (self.uid, tag))
@@ -276,8 +293,7 @@ class MList(SList):
         for path, kind in _paths(self.shape):
             self.arrs[path] = z3.Store(self.arrs[path], at, to_z3(_enc[path]))
         self.length = z3.simplify(self.length + 1)
-        from . import texts
-        texts.on_append(interp, self, n, v)       # the prefix-join measure follows the append
+        self.tail.append(v)
 
     def insert(self, interp, pos, v):
         self.aux = {}
@@ -291,6 +307,7 @@ class MList(SList):
         for path, kind in _paths(self.shape):
             self.arrs[path] = z3.Store(self.arrs[path], self.base, to_z3(_enc[path]))
         self.length = z3.simplify(self.length + 1)
+        self.new_base()
         self._rebase(interp)
 
     def _rebase(self, interp):
@@ -329,6 +346,7 @@ class MList(SList):
             self.length = z3.simplify(self.length - 1)
             self.cache = {}
             self.version += 1
+            self.new_base()
             return v
         if isinstance(pos, int) and pos == 0:
             v = self._elem(interp, z3.IntVal(0))
@@ -342,6 +360,7 @@ class MList(SList):
         self.version += 1
         self.base = z3.simplify(self.base + 1)
         self.length = z3.simplify(self.length - 1)
+        self.new_base()
         self._rebase(interp)
 
     def extend(self, interp, other):
@@ -373,6 +392,7 @@ class MList(SList):
             self.length = z3.simplify(n + other.length)
             self.cache = {}
             self.version += 1
+            self.new_base()
             return
         for x in interp.iterate(other):
             self.append(interp, x)
@@ -394,6 +414,7 @@ class MList(SList):
         _enc = _encode(interp, self.shape, v)
         for path, kind in _paths(self.shape):
             self.arrs[path] = z3.Store(self.arrs[path], at, to_z3(_enc[path]))
+        self.new_base()
 
     def copy(self, interp):
         c = MList(interp, interp.st.fresh_name(self.uid + '.copy'), None, self.length)
@@ -402,6 +423,9 @@ class MList(SList):
         c.aux = dict(self.aux)
         c.base = self.base
         c.is_deque = self.is_deque
+        c.base_empty, c.base_len, c.tail = self.base_empty, self.base_len, list(self.tail)
+        c.base_measures = self.base_measures      # shared: same base list, same (lazily created) values
+        c.mversion = self.mversion
         return c
 
 
@@ -425,6 +449,8 @@ def method(interp, xs, name, args, kwargs):
         xs.cache = {}
         xs.aux = {}
         xs.version += 1
+        xs.new_base()
+        xs.base_empty = True
         return None
     return None
 
@@ -434,3 +460,79 @@ def from_concrete(interp, values, uid='list'):
     for v in values:
         m.append(interp, v)
     return m
+
+
+# ------------------------------------------------------------------------------ measures (left folds)
+
+def _param_key(params):
+    out = []
+    for a in params:
+        if isinstance(a, (Sym, int, str, bool)) and not isinstance(a, (SOpt, SChoice, SList)):
+            out.append(z3.simplify(to_z3(a)).sexpr())
+        else:
+            out.append('id%d' % id(a))
+    return tuple(out)
+
+
+def apply_measure(interp, m, args):
+    """h(xs, *params) for a pyvc.api.Measure h:  h([]) == init,  h(xs + [x]) == step(h(xs), x, *params).
+    On a list built by the code the fold is computed; on a symbolic mutable list it is computed from the
+    (unknown, but fixed) value on the list as it was at the last havoc and the items appended since."""
+    if not args:
+        raise Unsupported('measure %s called without a list' % m.name)
+    xs = args[0]
+    params = list(args[1:])
+    if isinstance(xs, (SOpt, SChoice)):
+        xs = interp.resolve(xs)
+    if isinstance(xs, (list, tuple)):
+        acc = m.init
+        for x in xs:
+            acc = interp.call(m.step, [acc, x] + params, {})
+        return acc
+    if isinstance(xs, MList):
+        if xs.base_empty:
+            acc = m.init
+        else:
+            key = (m.name, _param_key(params))
+            if key not in xs.base_measures:
+                v = m.shape.make(interp, '%s(%s#%d)' % (m.name, xs.uid, xs.mversion))
+                xs.base_measures[key] = v
+                # the fold of the empty list is `init`
+                e = interp.truth(interp.eq(v, m.init))
+                interp.st._add(z3.Implies(xs.base_len == 0, to_z3(e)))      # valid in every merge scope
+            acc = xs.base_measures[key]
+        for x in xs.tail:
+            acc = interp.call(m.step, [acc, x] + params, {})
+        return acc
+    raise Unsupported('measure %s of %r (only lists built by the code and MListOf lists)' % (m.name, type(xs).__name__))
+
+
+def join(interp, sep, xs):
+    """sep.join(xs) for a symbolic mutable list of strings: a left fold like a measure"""
+    st = interp.st
+    if xs.shape is not None and xs.shape != ('str',):
+        from .interp import PyRaise
+        raise PyRaise(TypeError('sequence item: expected str instance'))
+    sep_t = to_z3(sep)
+    if xs.base_empty:
+        acc = z3.StringVal('')
+        empty = z3.BoolVal(True)
+    else:
+        key = ('str.join', _param_key([sep]))
+        if key not in xs.base_measures:
+            j = st.fresh_str('join(%s#%d)' % (xs.uid, xs.mversion))
+            st._add(z3.Implies(xs.base_len == 0, j == z3.StringVal('')))
+            xs.base_measures[key] = j
+        acc = xs.base_measures[key]
+        empty = xs.base_len == 0
+    from . import strings
+    for x in xs.tail:
+        if isinstance(sep, str) and sep == '':
+            # no separator: the measure of an empty list is '' and '' + x == x, no case distinction needed
+            acc = to_z3(strings.concat(interp, wrap(acc), x))
+            empty = z3.BoolVal(False)
+            continue
+        with_sep = strings.concat(interp, strings.concat(interp, wrap(acc), sep), x)
+        acc = z3.simplify(z3.If(empty, to_z3(x), to_z3(with_sep)))
+        empty = z3.BoolVal(False)
+    return wrap(acc)
